@@ -36,6 +36,9 @@ func ownIteratorTerm(gc *GCNF, IT *Term) (operand string, ok bool) {
 	if k, ok := isIterCall(IT); ok {
 		return k, true
 	}
+	if IT.Op == "viter" {
+		return IT.Leaf, true
+	}
 	if IT.Op == "new" {
 		found := ""
 		n := 0
@@ -56,6 +59,131 @@ func ownIteratorTerm(gc *GCNF, IT *Term) (operand string, ok bool) {
 		}
 	}
 	return "", false
+}
+
+// asIndexLoop recognises `for i := 0; i < Size(); i++ { … storage[i] … }` over the receiver: one loop variable that starts at
+// 0 and advances by one, every round guarded by i < Size() (the container's own size term, re-read each round) and the
+// exhausted path by Size() <= i. It returns the normal form rewritten as a loop over a virtual iterator (each round begins
+// with `do:<Next> viter:0`, tested positively / negatively) together with the terms that stand for Index() and Value():
+// the loop variable, and the iterator's own Value() expression with its index field read as the loop variable and its owner
+// field as the receiver.
+func asIndexLoop(c *Ctx, ct, itType *types.Named, fn *ssa.Function, gc *GCNF, ownNext string) (*GCNF, string, string, bool) {
+	for _, g := range gc.GCs {
+		for _, ef := range g.Effects {
+			if ef.Op == "do" && strings.HasSuffix(ef.Leaf, ").Next") {
+				return nil, "", "", false // a real iterator is used
+			}
+		}
+	}
+	var entry *GC
+	for _, g := range gc.GCs {
+		if g.From == 0 {
+			if entry != nil {
+				return nil, "", "", false
+			}
+			entry = g
+		}
+	}
+	if entry == nil || entry.Exit.Op != "goto" {
+		return nil, "", "", false
+	}
+	k := entry.Exit.Leaf
+	// the loop variable: the φ that starts at 0 and is compared with the size
+	sizeT := returnTerm(c.GC(methodsOf(c.p, ct)["Size"]))
+	if sizeT == nil {
+		return nil, "", "", false
+	}
+	S := sizeT.String()
+	j := -1
+	for i, a := range entry.Exit.Args {
+		if a.String() == "#:0" {
+			phi := "φ:" + k + "." + itoa(i)
+			for _, g := range gc.GCs {
+				for _, at := range g.Guards {
+					if at.Op == "<" && len(at.Args) == 2 && at.Args[0].String() == phi && noEpoch(at.Args[1]) == S {
+						j = i
+					}
+				}
+			}
+		}
+	}
+	if j < 0 {
+		return nil, "", "", false
+	}
+	phi := "φ:" + k + "." + itoa(j)
+	ownerF, _ := iterOwner(c.p, itType)
+	if ownerF == "" || !hasIntField(itType, "index") {
+		return nil, "", "", false
+	}
+	// Value() of the iterator with index := φ, owner := receiver
+	vm := methodsOf(c.p, itType)["Value"]
+	if vm == nil {
+		return nil, "", "", false
+	}
+	stt := &pstate{b: &gcBuilder{p: c.p, e: c.E(), fn: fn, cutIdx: map[string]int{}, out: &GCNF{Fn: fn}}, env: map[ssa.Value]*Term{}, onPath: map[string]bool{}, inl: true}
+	IT := leaf("ITER", "")
+	vt, ok := stt.inline(vm, []*Term{IT})
+	if !ok {
+		return nil, "", "", false
+	}
+	vt = stripEpochs(vt)
+	bad := false
+	vt = rewriteTerm(vt, func(t *Term) *Term {
+		if t.Op == "load" && len(t.Args) == 1 && t.Args[0].Op == "fa" && len(t.Args[0].Args) == 1 && t.Args[0].Args[0].Op == "ITER" {
+			switch t.Args[0].Leaf {
+			case "index":
+				return leaf("φ", k+"."+itoa(j))
+			case ownerF:
+				return leaf("p", "0")
+			}
+			bad = true
+		}
+		return nil
+	})
+	if bad || vt.any(func(t *Term) bool { return t.Op == "ITER" }) {
+		return nil, "", "", false
+	}
+	out := &GCNF{Fn: gc.Fn, NumPaths: gc.NumPaths, Cuts: gc.Cuts}
+	vit := leaf("viter", "0")
+	next := nodeL("do", ownNext, vit)
+	for _, g := range gc.GCs {
+		if g == entry {
+			out.GCs = append(out.GCs, g)
+			continue
+		}
+		if itoa(g.From) != k {
+			return nil, "", "", false
+		}
+		n := &GC{From: g.From, Pos: g.Pos, Exit: g.Exit}
+		stepped := 0
+		for _, at := range g.Guards {
+			switch {
+			case at.Op == "<" && len(at.Args) == 2 && at.Args[0].String() == phi && noEpoch(at.Args[1]) == S:
+				stepped = 1
+			case at.Op == "<=" && len(at.Args) == 2 && noEpoch(at.Args[0]) == S && at.Args[1].String() == phi:
+				stepped = -1
+			default:
+				n.Guards = append(n.Guards, at)
+			}
+		}
+		switch stepped {
+		case 1:
+			n.Guards = append(n.Guards, nodeL("res", "", next))
+			// the loop variable must advance by exactly one on a continuing round
+			if g.Exit.Op == "goto" {
+				if g.Exit.Leaf != k || j >= len(g.Exit.Args) || g.Exit.Args[j].String() != "(+ #:1 "+phi+")" {
+					return nil, "", "", false
+				}
+			}
+		case -1:
+			n.Guards = append(n.Guards, node("!", nodeL("res", "", next)))
+		default:
+			return nil, "", "", false
+		}
+		n.Effects = append([]*Term{next}, g.Effects...)
+		out.GCs = append(out.GCs, n)
+	}
+	return out, phi, vt.String(), true
 }
 
 func enumerableTypes(p *Prog) []*types.Named {
@@ -134,6 +262,14 @@ func checkEnum(c *Ctx, ct, itType *types.Named, fn *ssa.Function, gc *GCNF, name
 	ownNext := p.RelPkg(itType.Obj().Pkg().Path()) + ".(*" + itType.Obj().Name() + ").Next"
 	var IT *Term
 	var result *Term // the container under construction (Select/Map)
+	// a container whose iterator is an index into storage may be enumerated by the same index loop written out
+	// (`for i := 0; i < Size(); i++ { f(i, storage[i]) }`): read as a loop over a virtual own iterator
+	vkT, vvT := "", ""
+	if !keyed {
+		if g2, k, v, ok := asIndexLoop(c, ct, itType, fn, gc, ownNext); ok {
+			gc, vkT, vvT = g2, k, v
+		}
+	}
 	// entry region
 	nEntry := 0
 	for _, g := range gc.GCs {
@@ -172,6 +308,9 @@ func checkEnum(c *Ctx, ct, itType *types.Named, fn *ssa.Function, gc *GCNF, name
 		}
 		kT := iterMethodTerm(c, fn, itType, keyName, IT)
 		vT := iterMethodTerm(c, fn, itType, "Value", IT)
+		if IT.Op == "viter" {
+			kT, vT = vkT, vvT
+		}
 		stepped := 0
 		var called *Term
 		calledPol := false
@@ -258,6 +397,28 @@ func checkEnum(c *Ctx, ct, itType *types.Named, fn *ssa.Function, gc *GCNF, name
 			continue
 		}
 		nStep++
+		if !keyed {
+			// after Next() returned true an index cursor is inside 0..n-1 (R14move): comparing Index() with the not-found
+			// index -1 is decided (`Any = Find(f) index != -1`)
+			g = rewriteGC(g, func(t *Term) *Term {
+				if (t.Op == "!=" || t.Op == "==") && len(t.Args) == 2 {
+					for _, pr := range [][2]*Term{{t.Args[0], t.Args[1]}, {t.Args[1], t.Args[0]}} {
+						if pr[0].String() == "#:-1" && noEpoch(pr[1]) == kT {
+							return boolConst(t.Op == "!=")
+						}
+					}
+				}
+				if t.Op == "!" && len(t.Args) == 1 && (t.Args[0].Op == "!=" || t.Args[0].Op == "==") && len(t.Args[0].Args) == 2 {
+					in := t.Args[0]
+					for _, pr := range [][2]*Term{{in.Args[0], in.Args[1]}, {in.Args[1], in.Args[0]}} {
+						if pr[0].String() == "#:-1" && noEpoch(pr[1]) == kT {
+							return boolConst(in.Op == "==")
+						}
+					}
+				}
+				return nil
+			})
+		}
 		if len(dyns) != 1 {
 			bad = append(bad, fmt.Sprintf("f is called %d times in one round", len(dyns)))
 			continue
@@ -386,9 +547,9 @@ func comparatorPaths(p *Prog, ct *types.Named) []string {
 			if ist.Field(j).Name() == "Comparator" {
 				_, isPtr := types.Unalias(f.Type()).(*types.Pointer)
 				if isPtr {
-					out = append(out, "(load (fa:Comparator (load (fa:"+f.Name()+" p:0))))")
+					out = append(out, "(load (fa:Comparator (load (fa:"+fieldN(ct, i)+" p:0))))")
 				} else {
-					out = append(out, "(load (fa:Comparator (fa:"+f.Name()+" p:0)))")
+					out = append(out, "(load (fa:Comparator (fa:"+fieldN(ct, i)+" p:0)))")
 				}
 			}
 		}
